@@ -1,5 +1,7 @@
 //! avh — the implementation side of the correspondence checks and the property oracles.
 //! Every subcommand runs the REAL library built from /repo's working tree.
+mod compat;
+mod copy;
 mod locks;
 mod names;
 mod regexes;
@@ -18,6 +20,7 @@ fn main() {
     }
     util::quiet_panics();
     match args[1].as_str() {
+        "copy" => copy::main(&args[2..]),
         "locks" => locks::main(&args[2..]),
         "names" => names::main(&args[2..]),
         "spec-types" => spec::types_main(&args[2..]),
@@ -25,6 +28,7 @@ fn main() {
         "regex" => regexes::main(&args[2..]),
         "xml" => xml::main(&args[2..]),
         "tree" => tree::main(&args[2..]),
+        "compat" => compat::main(&args[2..]),
         "values" => values::main(&args[2..]),
         other => {
             eprintln!("unknown subcommand {}", other);
